@@ -1783,7 +1783,11 @@ impl Value {
                     // The default behavior is to try to index into the iterable
                     // as if nth() was called.  This lets one slice an array and
                     // then index into it.
-                    if let Some(idx) = index(key, || dy.enumerator_len()) {
+                    // iterables of unknown length are counted for negative indexes
+                    if let Some(idx) = index(key, || {
+                        dy.enumerator_len()
+                            .or_else(|| dy.try_iter().map(|iter| iter.count()))
+                    }) {
                         if let Some(mut iter) = dy.try_iter() {
                             if let Some(rv) = iter.nth(idx) {
                                 return Some(rv);
